@@ -561,10 +561,7 @@ func init() {
 								if !ok || c.Call.IsInvoke() || c.Call.StaticCallee() != nil || !derivedFromField(c.Call.Value, cleanups) {
 									continue
 								}
-								h := loopHeaderOf(b2)
-								for h != nil && !loopBody(h)[b2] {
-									h = nil
-								}
+								h := enclosingLoop(b2)
 								if h == nil {
 									continue
 								}
